@@ -1,0 +1,14 @@
+//go:build verif
+
+// Contracts for package pool (comment-only; read by /verif/govc).
+
+package pool
+
+//@ func RecycleBytesBuffer
+//@   requires [nonnil] b != nil
+//@   assigns b.content
+//@   ensures [reset] b.content == ""
+//@ func RecycleBuilderBuffer
+//@   requires [nonnil] sb != nil
+//@   assigns sb.content
+//@   ensures [reset] sb.content == ""
